@@ -821,6 +821,10 @@ class IkeSa(object):
                            if request.exchange_type == Message.Exchange.IKE_AUTH else ipsec_conf.proposal)
             chosen_child_proposal = self._select_best_sa_proposal(my_proposal, request_payload_sa)
 
+            # the SPI the peer proposes identifies our outbound SA: it cannot be one we already use towards it
+            if any(x.outbound_spi == chosen_child_proposal.spi for x in self.child_sas):
+                raise NoProposalChosen('The proposed SPI is already used by another CHILD_SA')
+
             keyseed = request_payload_nonce.nonce + response_payload_nonce.nonce
             # if KE exchange is required
             if chosen_child_proposal.get_transforms(Transform.Type.DH):
